@@ -1,6 +1,6 @@
 (** C01 — property theorems only. *)
 From Coq Require Import List ZArith Arith Bool.
-From Kardia Require Import C01.Power C01.Agreement C01.Chain C01.Checker C01.Examples.
+From Kardia Require Import C01.Power C01.Agreement C01.Chain C01.Checker C01.Examples C01.Sync C01.SyncProofs C01.Lock C01.LockProofs.
 Local Open Scope Z_scope.
 
 (** Quorum intersection for arbitrary voting-power distributions. *)
@@ -61,3 +61,81 @@ Theorem C01_checker_sound :
     all_obey_b powers B B_eq_dec faulty tr = true -> all_correct_obey powers B B_eq_dec faulty tr.
 Proof. exact all_obey_b_sound. Qed.
 Print Assumptions C01_checker_sound.
+
+(** VerifyCommit (model of types/validator_set.go, C01/Sync.v): an accepted commit is for the wanted
+    height and block, has one slot per validator, every present slot carries the signature of the
+    validator OF THAT SLOT (so the tally is over distinct validators), and the slots that count hold
+    more than two thirds of the total power. *)
+Theorem C01_verify_commit_sound :
+  forall (B : Type) (B_eq_dec : forall x y : B, {x = y} + {x <> y}) powers hw want oc,
+    verify_commit B B_eq_dec powers hw want oc = VOk ->
+    exists c, oc = Some c /\ c_height B c = hw /\ c_block B c = want /\
+              length (c_slots B c) = length powers /\
+              (forall i, (i < length powers)%nat -> s_flag (nth i (c_slots B c) absent_slot) <> FAbsent ->
+                         s_signer (nth i (c_slots B c) absent_slot) = Some i) /\
+              2 * total powers < 3 * pw powers (counted B want (c_slots B c)).
+Proof. exact verify_commit_sound. Qed.
+Print Assumptions C01_verify_commit_sound.
+
+(** With ideal signatures an accepted commit for block b of the height after prefix ch is a +2/3
+    precommit quorum of that height's signing history. *)
+Theorem C01_verify_commit_decides :
+  forall (B : Type) (B_eq_dec : forall x y : B, {x = y} + {x <> y}) (trace_of : list B -> trace B) powers ch b oc,
+    Forall (fun p => 0 <= p) powers ->
+    (forall c, oc = Some c -> commit_ideal B trace_of c) ->
+    verify_commit B B_eq_dec powers (S (length ch)) (Some b) oc = VOk ->
+    exists r, commit_quorum powers B B_eq_dec (trace_of ch) r b.
+Proof. exact verify_commit_decides. Qed.
+Print Assumptions C01_verify_commit_decides.
+
+(** Block sync (model of blockchain/processor.go pcState.handle): whatever blocks, from whatever
+    peers, in whatever order, with whatever (forged) commits the processor is offered, peer errors and
+    all, the chain it has adopted is justified: every block in it gathered +2/3 precommits of the
+    validators entitled by the prefix. *)
+Theorem C01_blocksync_justified :
+  forall (B : Type) (B_eq_dec : forall x y : B, {x = y} + {x <> y})
+         (trace_of : list B -> trace B) (powers_of : list B -> list Z) (apply_ok : list B -> blk B -> bool),
+    (forall c, Forall (fun p => 0 <= p) (powers_of c)) ->
+    forall evs, Forall (ev_ideal B trace_of) evs ->
+      justified B B_eq_dec powers_of trace_of
+        (p_chain B (p_run B B_eq_dec powers_of apply_ok (p_init B) evs)).
+Proof. exact blocksync_justified. Qed.
+Print Assumptions C01_blocksync_justified.
+
+(** ... hence a node that catches up by block sync holds, at every height it has, the block that
+    consensus decided there (any justified chain, in particular a correct node's committed chain). *)
+Theorem C01_blocksync_same_block :
+  forall (B : Type) (B_eq_dec : forall x y : B, {x = y} + {x <> y})
+         (trace_of : list B -> trace B) (powers_of : list B -> list Z) (apply_ok : list B -> blk B -> bool),
+    (forall c, Forall (fun p => 0 <= p) (powers_of c)) ->
+    forall faulty_of : list B -> nat -> bool,
+    (forall c, 3 * pw (powers_of c) (faulty_of c) < total (powers_of c)) ->
+    (forall c, all_correct_obey (powers_of c) B B_eq_dec (faulty_of c) (trace_of c)) ->
+    forall evs c2 h b1 b2,
+      Forall (ev_ideal B trace_of) evs -> justified B B_eq_dec powers_of trace_of c2 ->
+      nth_error (p_chain B (p_run B B_eq_dec powers_of apply_ok (p_init B) evs)) h = Some b1 ->
+      nth_error c2 h = Some b2 -> b1 = b2.
+Proof. exact blocksync_same_block. Qed.
+Print Assumptions C01_blocksync_same_block.
+
+(** The lock discipline (model C01/Lock.v of the LockedRound/LockedBlock bookkeeping of
+    consensus/state.go: lock and RE-LOCK at the current round on a polka, release only by a polka for
+    another value in a round in (LockedRound, Round], prevote the locked block) implies the four
+    obligations, for every interleaving with arbitrary signing events of all other validators. *)
+Theorem C01_lock_discipline_obeys :
+  forall powers, Forall (fun p => 0 <= p) powers ->
+  forall (B : Type) (B_eq_dec : forall x y : B, {x = y} + {x <> y}) (i : nat) acts st tr,
+    lrun powers B B_eq_dec i (l_init B) nil acts = Some (st, tr) -> obeys powers B B_eq_dec tr i.
+Proof. exact lock_discipline_obeys. Qed.
+Print Assumptions C01_lock_discipline_obeys.
+
+(** A held lock is the lock of the validator's last precommit for a block (or the later precommit
+    was already released by a polka): what the lock-state oracle checks on the real nodes. *)
+Theorem C01_lock_is_last_precommit :
+  forall powers, Forall (fun p => 0 <= p) powers ->
+  forall (B : Type) (B_eq_dec : forall x y : B, {x = y} + {x <> y}) (i : nat) acts st tr b lr,
+    lrun powers B B_eq_dec i (l_init B) nil acts = Some (st, tr) -> l_locked B st = Some (b, lr) ->
+    forall b' r, In (i, Precommit B r (Some b')) tr ->
+      (r <= lr)%nat \/ release powers B B_eq_dec tr r (l_round B st) b' = true.
+Proof. exact lock_is_last_precommit. Qed.
+Print Assumptions C01_lock_is_last_precommit.
